@@ -38,9 +38,9 @@ func errtokStream(b *builder) {
 		}
 		digits := strings.Repeat("7", n)
 		for _, s := range suffixes {
-			b.add("errtok", []byte(fmt.Sprintf("BA_ \"x\" 1%se%s", digits, s)))   // invalid exponential number
-			b.add("errtok", []byte(fmt.Sprintf("BA_ \"x\" 1%se+%s", digits, s)))  // sign without digits
-			b.add("errtok", []byte(fmt.Sprintf("BA_ \"x\" 0%sx€%s", digits, s)))  // invalid hex number
+			b.add("errtok", []byte(fmt.Sprintf("BA_ \"x\" 1%se%s", digits, s)))  // invalid exponential number
+			b.add("errtok", []byte(fmt.Sprintf("BA_ \"x\" 1%se+%s", digits, s))) // sign without digits
+			b.add("errtok", []byte(fmt.Sprintf("BA_ \"x\" 0%sx€%s", digits, s))) // invalid hex number
 			b.add("errtok", []byte(fmt.Sprintf("BU_: %s€%s", strings.Repeat("a", n), s)))
 		}
 	}
